@@ -1,1 +1,354 @@
-// harnesses for this module
+// Harnesses over src/metadata/mod.rs (child module of `metadata`)
+use super::*;
+use crate::verif_env::*;
+use bitstream_io::{BitRead, BitWrite, SignedBitCount};
+use std::num::NonZero;
+
+/// an arbitrary STREAMINFO as the block reader can produce it:
+/// every field at its full coded width (sample rate 20 bits incl. 0,
+/// channels 1..=8, depth 1..=32, total samples 36 bits or absent)
+pub(crate) fn any_streaminfo() -> Streaminfo {
+    let sample_rate: u32 = kani::any();
+    kani::assume(sample_rate <= Streaminfo::MAX_SAMPLE_RATE);
+    let channels: u8 = kani::any();
+    kani::assume(channels >= 1 && channels <= 8);
+    let bps: u32 = kani::any();
+    kani::assume(bps >= 1 && bps <= 32);
+    let total: u64 = kani::any();
+    kani::assume(total <= Streaminfo::MAX_TOTAL_SAMPLES.get());
+    let minf: u32 = kani::any();
+    let maxf: u32 = kani::any();
+    kani::assume(minf <= Streaminfo::MAX_FRAME_SIZE && maxf <= Streaminfo::MAX_FRAME_SIZE);
+    Streaminfo {
+        minimum_block_size: kani::any(),
+        maximum_block_size: kani::any(),
+        minimum_frame_size: NonZero::new(minf),
+        maximum_frame_size: NonZero::new(maxf),
+        sample_rate,
+        channels: NonZero::new(channels).unwrap(),
+        bits_per_sample: SignedBitCount::<32>::try_from(bps).unwrap(),
+        total_samples: NonZero::new(total),
+        md5: if kani::any() { Some(kani::any()) } else { None },
+    }
+}
+
+// ===========================================================================
+// C12: accessors are total on every block list that parses
+// ===========================================================================
+
+// @harness prop=C12 tier=quick expect=pass timeout=600
+// @units metadata::Metadata::duration metadata::Metadata::decoded_len (Streaminfo instantiation)
+// @bound sample rate pinned in turn to 0 (legal: "not audio") and 1 (other divisors need a 64-bit divider circuit: thorough tier, c12_streaminfo_duration_any_rate); every other STREAMINFO field symbolic at full coded width (channels 1..=8, depth 1..=32, total samples 0..2^36-1 or unknown)
+// @oracle no panic (division by zero, overflow); a duration is reported only when the length is known and the rate is not 0, at rate 1 it equals total seconds; decoded_len == total*channels*ceil(bps/8)
+#[kani::proof]
+#[kani::unwind(7)]
+fn c12_streaminfo_duration_decoded_len() {
+    const RATES: [u32; 2] = [0, 1];
+    let mut i = 0;
+    while i < RATES.len() {
+        let mut si = any_streaminfo();
+        si.sample_rate = RATES[i];
+        let d = si.duration();
+        let l = si.decoded_len();
+        match si.total_samples {
+            None => {
+                assert!(d.is_none());
+                assert!(l.is_none());
+            }
+            Some(t) => {
+                let t = t.get();
+                let bytes = u64::from((u32::from(si.bits_per_sample) + 7) / 8);
+                assert!(l == Some(t * u64::from(si.channels.get()) * bytes));
+                let r = u64::from(RATES[i]);
+                if r == 0 {
+                    assert!(d.is_none());
+                } else {
+                    let d = d.unwrap();
+                    assert!(d.as_secs() == t && d.subsec_nanos() == 0);
+                }
+            }
+        }
+        i += 1;
+    }
+}
+
+// @harness prop=C12 tier=thorough expect=pass timeout=2400 solver=kissat
+// @units metadata::Metadata::duration (Streaminfo instantiation)
+// @bound every STREAMINFO the reader can produce: sample rate 0..2^20-1, total samples 0..2^36-1 or unknown - all symbolic at once (three 64-bit divisions by a symbolic divisor: decided by kissat, ~7 min)
+// @oracle no panic of any kind
+#[kani::proof]
+#[kani::solver(kissat)]
+fn c12_streaminfo_duration_any_rate() {
+    let si = any_streaminfo();
+    let d = si.duration();
+    kani::cover!(si.sample_rate == 0 && si.total_samples.is_some());
+    std::mem::forget(d);
+}
+
+// @harness prop=C12 tier=quick expect=pass timeout=300
+// @units metadata::ChannelMask::from_channels metadata::ChannelMask::channels
+// @bound channel counts 1..=8 (the only values a parsed STREAMINFO can hold: 3-bit field + 1)
+// @assume channels in 1..=8 (documented precondition of the private helper; STREAMINFO.channels is a 3-bit field + 1)
+// @oracle no panic; the mask names exactly that many channels
+#[kani::proof]
+#[kani::unwind(20)]
+fn c12_channel_mask_from_channels() {
+    let n: u8 = kani::any();
+    kani::assume(n >= 1 && n <= 8);
+    let m = ChannelMask::from_channels(n);
+    let cnt = m.channels().count();
+    assert!(cnt == usize::from(n));
+}
+
+// ---------------------------------------------------------------------------
+// image sniffers on arbitrary bytes
+// ---------------------------------------------------------------------------
+
+fn png_sig(data: &mut [u8]) {
+    data[0] = 0x89;
+    data[1] = 0x50;
+    data[2] = 0x4E;
+    data[3] = 0x47;
+    data[4] = 0x0D;
+    data[5] = 0x0A;
+    data[6] = 0x1A;
+    data[7] = 0x0A;
+}
+
+// @harness prop=C12 tier=quick expect=pass timeout=600
+// @units metadata::PictureMetrics::try_new metadata::PictureMetrics::try_png
+// @bound PNG signature + one 25-byte IHDR chunk with every length/tag/width/height/bit-depth/colour-type value except the palette type (3)
+// @assume colour type != 3 (the PLTE chunk scan is c12_png_palette_scan)
+// @oracle no panic of any kind (u8 overflow in the colour-depth product, slice bounds)
+#[kani::proof]
+#[kani::unwind(36)]
+fn c12_png_sniffer_total() {
+    let mut data: [u8; 33] = kani::any();
+    png_sig(&mut data);
+    kani::assume(data[25] != 3);
+    let r = PictureMetrics::try_new(&data);
+    kani::cover!(r.is_ok());
+    std::mem::forget(r);
+}
+
+// @harness prop=C12 tier=quick expect=pass timeout=600
+// @units metadata::PictureMetrics::try_new metadata::PictureMetrics::try_png
+// @bound the same 33 bytes cut at each of 8, 11, 12, 16, 20, 24, 25, 26, 28, 29, 32 bytes (inside every field of the IHDR chunk)
+// @oracle truncated data is an error, never a panic
+#[kani::proof]
+#[kani::unwind(36)]
+fn c12_png_sniffer_truncated() {
+    let mut data: [u8; 33] = kani::any();
+    png_sig(&mut data);
+    kani::assume(data[25] != 3);
+    const CUTS: [usize; 11] = [8, 11, 12, 16, 20, 24, 25, 26, 28, 29, 32];
+    let mut i = 0;
+    while i < CUTS.len() {
+        let r = PictureMetrics::try_new(&data[..CUTS[i]]);
+        assert!(r.is_err());
+        std::mem::forget(r);
+        i += 1;
+    }
+}
+
+// @harness prop=C12 tier=thorough expect=pass timeout=900
+// @units metadata::PictureMetrics::try_png::plte_colors
+// @bound palette PNG: valid IHDR (colour type 3), then a gAMA chunk of length 2 with arbitrary payload and CRC (skipped), then a PLTE chunk header with an arbitrary 32-bit length
+// @oracle no panic of any kind; terminates (unwinding assertions)
+#[kani::proof]
+#[kani::unwind(12)]
+fn c12_png_palette_scan() {
+    let mut data: [u8; 33 + 14 + 8] = kani::any();
+    png_sig(&mut data);
+    data[8] = 0;
+    data[9] = 0;
+    data[10] = 0;
+    data[11] = 0x0d;
+    data[12] = b'I';
+    data[13] = b'H';
+    data[14] = b'D';
+    data[15] = b'R';
+    data[25] = 3;
+    // first chunk: length 2, tag not PLTE
+    data[33] = 0;
+    data[34] = 0;
+    data[35] = 0;
+    data[36] = 2;
+    data[37] = b'g';
+    data[38] = b'A';
+    data[39] = b'M';
+    data[40] = b'A';
+    // second chunk header: PLTE with any 32-bit length
+    data[51] = b'P';
+    data[52] = b'L';
+    data[53] = b'T';
+    data[54] = b'E';
+    let r = PictureMetrics::try_new(&data);
+    kani::cover!(r.is_ok());
+    std::mem::forget(r);
+}
+
+// @harness prop=C12 tier=quick expect=pass timeout=600
+// @units metadata::PictureMetrics::try_new metadata::PictureMetrics::try_jpeg
+// @bound FF D8 FF C0 + one start-of-frame segment with every length/precision/height/width/component value (8 arbitrary bytes); the 12 other start-of-frame markers share this arm
+// @oracle no panic of any kind (u8 overflow in precision x components)
+#[kani::proof]
+#[kani::unwind(4)]
+fn c12_jpeg_sniffer_total() {
+    let mut data: [u8; 12] = kani::any();
+    data[0] = 0xFF;
+    data[1] = 0xD8;
+    data[2] = 0xFF;
+    data[3] = 0xC0;
+    let r = PictureMetrics::try_new(&data);
+    kani::cover!(r.is_ok());
+    std::mem::forget(r);
+}
+
+// @harness prop=C12 tier=thorough expect=pass timeout=600
+// @units metadata::PictureMetrics::try_jpeg
+// @bound FF D8 FF E0 + segment length pinned to 1 (illegal) and to 4, arbitrary payload, then FF C0 and an arbitrary start-of-frame body
+// @oracle a segment length below 2 is an error; otherwise the frame header after the skipped segment is used; never a panic other than the known colour-depth product
+#[kani::proof]
+#[kani::unwind(4)]
+fn c12_jpeg_segment_skip() {
+    const LENS: [u8; 2] = [1, 4];
+    let mut i = 0;
+    while i < LENS.len() {
+        let mut data: [u8; 18] = kani::any();
+        data[0] = 0xFF;
+        data[1] = 0xD8;
+        data[2] = 0xFF;
+        data[3] = 0xE0;
+        data[4] = 0;
+        data[5] = LENS[i];
+        let k = 4 + (if LENS[i] < 2 { 2 } else { LENS[i] as usize });
+        data[k] = 0xFF;
+        data[k + 1] = 0xC0;
+        // keep the colour-depth product in range: that overflow is c12_jpeg_sniffer_total's subject
+        data[k + 4] = 8;
+        kani::assume(data[k + 9] <= 4);
+        let r = PictureMetrics::try_new(&data[..k + 10]);
+        if LENS[i] < 2 {
+            assert!(r.is_err());
+        } else {
+            assert!(r.is_ok());
+        }
+        std::mem::forget(r);
+        i += 1;
+    }
+}
+
+// @harness prop=C12 tier=quick expect=pass timeout=600
+// @units metadata::PictureMetrics::try_new metadata::PictureMetrics::try_gif
+// @bound "GIF" + 9 arbitrary bytes, and every shorter truncation of it
+// @oracle no panic of any kind
+#[kani::proof]
+#[kani::unwind(16)]
+fn c12_gif_sniffer_total() {
+    let mut data: [u8; 12] = kani::any();
+    data[0] = b'G';
+    data[1] = b'I';
+    data[2] = b'F';
+    let len: usize = kani::any();
+    kani::assume(len >= 3 && len <= 12);
+    let r = PictureMetrics::try_new(&data[..len]);
+    kani::cover!(r.is_ok());
+    std::mem::forget(r);
+}
+
+// ===========================================================================
+// C10/C11: block size arithmetic (24-bit limit)
+// ===========================================================================
+
+// @harness prop=C10,C11 tier=quick expect=pass timeout=300
+// @units metadata::BlockSize::checked_add metadata::BlockSize::checked_sub metadata::BlockSize::try_from
+// @bound every pair of 24-bit block sizes; every u32/u64/usize conversion input
+// @oracle results never exceed 2^24-1; add/sub agree with mathematical integers or return None; conversions accept exactly 0..=2^24-1
+#[kani::proof]
+fn c11_block_size_arithmetic() {
+    let a: u32 = kani::any();
+    let b: u32 = kani::any();
+    let max = (1u32 << 24) - 1;
+    kani::assume(a <= max && b <= max);
+    let (sa, sb) = (BlockSize::try_from(a).unwrap(), BlockSize::try_from(b).unwrap());
+    match sa.checked_add(sb) {
+        Some(s) => assert!(s.get() == a + b && a + b <= max),
+        None => assert!(a + b > max),
+    }
+    match sa.checked_sub(sb) {
+        Some(s) => assert!(a >= b && s.get() == a - b),
+        None => assert!(a < b),
+    }
+    let w: u64 = kani::any();
+    match BlockSize::try_from(w) {
+        Ok(s) => assert!(w <= u64::from(max) && u64::from(s.get()) == w),
+        Err(_) => assert!(w > u64::from(max)),
+    }
+    let u: usize = kani::any();
+    match BlockSize::try_from(u) {
+        Ok(s) => assert!(u <= max as usize && s.get() as usize == u),
+        Err(_) => assert!(u > max as usize),
+    }
+    let v: u32 = kani::any();
+    assert!(BlockSize::try_from(v).is_ok() == (v <= max));
+}
+
+// ===========================================================================
+// C11: block bodies survive write -> read, and report their size correctly
+// (TokFifo = exact model of "the bits written are the bits read")
+// ===========================================================================
+
+// @harness prop=C11,C15 tier=quick expect=pass timeout=600
+// @units metadata::Streaminfo::to_writer metadata::Streaminfo::from_reader metadata::MetadataBlock::bytes
+// @bound every STREAMINFO value: block sizes 16 bit, frame sizes 24 bit or unknown, rate 20 bit, channels 1..=8, depth 1..=32 (incl. 1 and 32), total 36 bit or unknown, any MD5 or none
+// @oracle the writer does not panic and succeeds; the reader returns an equal value; bits written == 34 * 8
+#[kani::proof]
+#[kani::unwind(40)]
+fn c11_streaminfo_roundtrip() {
+    let mut si = any_streaminfo();
+    // an all-zero digest is the coding of "no digest"
+    if let Some(m) = si.md5.as_mut() {
+        m[0] |= 1;
+    }
+    let mut q = TokFifo::<40>::new();
+    let w = q.build(&si);
+    assert!(w.is_ok() && !q.failed);
+    assert!(q.wpos == 34 * 8);
+    let back: Streaminfo = q.parse().unwrap();
+    assert!(q.drained());
+    assert!(back.minimum_block_size == si.minimum_block_size);
+    assert!(back.maximum_block_size == si.maximum_block_size);
+    assert!(back.minimum_frame_size == si.minimum_frame_size);
+    assert!(back.maximum_frame_size == si.maximum_frame_size);
+    assert!(back.sample_rate == si.sample_rate);
+    assert!(back.channels == si.channels);
+    assert!(u32::from(back.bits_per_sample) == u32::from(si.bits_per_sample));
+    assert!(back.total_samples == si.total_samples);
+    match (back.md5, si.md5) {
+        (None, None) => {}
+        (Some(a), Some(b)) => {
+            let mut i = 0;
+            while i < 16 {
+                assert!(a[i] == b[i]);
+                i += 1;
+            }
+        }
+        _ => assert!(false),
+    }
+    kani::cover!(u32::from(si.bits_per_sample) == 1);
+    kani::cover!(u32::from(si.bits_per_sample) == 32);
+}
+
+
+// @harness prop=C11 tier=quick expect=pass timeout=600
+// @units metadata::MetadataBlock::bytes metadata::MetadataBlock::total_size metadata::BlockBits (Streaminfo instantiation)
+// @bound every STREAMINFO value
+// @oracle self-reported size == 34 bytes (the size the writer emits, see c11_streaminfo_roundtrip), 38 with the block header
+#[kani::proof]
+#[kani::unwind(20)]
+fn c11_streaminfo_reported_size() {
+    let si = any_streaminfo();
+    assert!(si.bytes().map(|b| b.get()) == Some(34));
+    assert!(si.total_size().map(|b| b.get()) == Some(38));
+}
